@@ -486,9 +486,18 @@ def in_process_pools():
     running several threads is a hazard of its own (locks held by other threads at fork time), and not what is probed."""
     import multiprocessing
     import multiprocessing.dummy
-    old = multiprocessing.Pool
+    old, oldcp = multiprocessing.Pool, multiprocessing.current_process
+    real = oldcp()
+
+    class _AsWorker:
+        # (the library reads the worker number of the current process for a log message)
+        _identity = (1,)
+        name, pid, daemon = real.name, os.getpid(), False
+
     multiprocessing.Pool = multiprocessing.dummy.Pool
+    multiprocessing.current_process = lambda: _AsWorker
     try:
         yield
     finally:
         multiprocessing.Pool = old
+        multiprocessing.current_process = oldcp
